@@ -187,8 +187,11 @@ def f6_files(tier):
                     NM = lambda c=chunks: G.seg([], meta=False, chunks=c, interleaved=il, big=big)
                     INH = lambda c=chunks: G.seg([(paths[0], ['SAME'])] + ([(paths[1], ['NODATA'])] if len(elems) > 1 else []),
                                                  newlist=False, chunks=c, interleaved=il, big=big)
+                    PO = lambda: G.seg([('/', ['NODATA'], [['author', 'String', 'c3a9e697a5'], ['n', 'Int32', '07000000']]),
+                                        (paths[0], ['NODATA'], [['unit', 'String', '56']])], newlist=False, big=big)
+                    PON = lambda: G.seg([("/'g'", ['NODATA'], [['t', 'TimeStamp', '00000000000000800100000000000000']])], big=big)
                     shapes = {'S': [S()], 'S,S2': [S(), S2()], 'S,nometa': [S(), NM()], 'S,inh': [S(), INH()],
-                              'S,nometa,S2': [S(), NM(), S2(1)]}
+                              'S,nometa,S2': [S(), NM(), S2(1)], 'S,props-only': [S(), PO()], 'S,props-only-newlist': [S(), PON()]}
                     for sname, h in shapes.items():
                         if tier == 'quick' and sname in ('S,nometa,S2',) and chunks > 1:
                             continue
